@@ -12,7 +12,7 @@
     fuel), run on the encoded table over the default scopes, returns success, and the sorted namespace view of the
     resulting tree (Aml/View.v) IS the namespace [ns] the specification assigns to the program (Aml/Grammar.v). *)
 From Coq Require Import NArith List.
-From FF Require Import Aml.Grammar Aml.WfProgram Aml.ParserFragF0Final Aml.ParserFragF1Final Aml.ParserFragF3Final Aml.ParserFragF4Final Aml.ParserFragF5Final Aml.ParserFragF6Final Aml.ParserFragF7Final Aml.ParserFragT2Final Aml.ParserFragT2F7Final.
+From FF Require Import Aml.Grammar Aml.WfProgram Aml.ParserFragF0Final Aml.ParserFragF1Final Aml.ParserFragF3Final Aml.ParserFragF4Final Aml.ParserFragF5Final Aml.ParserFragF6Final Aml.ParserFragF7Final Aml.ParserFragT2Final Aml.ParserFragT2F7Final Aml.ParserFragTNTop Aml.ParserFragTNFinal.
 Import ListNotations.
 Local Open Scope N_scope.
 
@@ -141,3 +141,19 @@ Theorem C11_parse_encode_partial_T2F7 : forall tables,
   wf_program tables = true -> in_fragment_T2F7 tables = true -> parse_encode_statement tables.
 Proof. exact parse_encode_T2F7. Qed.
 Print Assumptions C11_parse_encode_partial_T2F7.
+
+(** Fragment TN ([in_fragment_TN], a boolean): programs of ANY NUMBER of tables (at least one).  Every table is a table
+    of F7 (items of F7 and, at the top level of the table, Scope directives over the predefined scopes); all tables
+    but the LAST are without Scope directives ([noscope]); 6 + the sum of the encoded table lengths is below 2^28.
+    Subsumes F7 (one table), T2 and T2F7 (two tables).  [parse_program] loads table i with handle i into the tree the
+    earlier tables left: by induction on the tables, with the invariant [SInv] (ParserFragTNTop.v: predefined scopes
+    are leaves, the objects of the earlier tables form a forest below the root that fills the pool slots 6 .. b-1
+    contiguously, empty free list, every object carries a handle of an earlier table), each further table appends
+    its objects, all later passes leave the earlier objects alone, and the view of the final tree lists every table's
+    objects from that table's image.  Why only the last table may have Scope directives: mergeScopeDirectives frees the
+    three objects of a directive, the next table would then allocate from the free list and its objects would no longer
+    be contiguous in the pool, which the layout functions of these proofs assume. *)
+Theorem C11_parse_encode_partial_TN : forall tables,
+  wf_program tables = true -> in_fragment_TN tables = true -> parse_encode_statement tables.
+Proof. exact parse_encode_TN. Qed.
+Print Assumptions C11_parse_encode_partial_TN.
